@@ -91,6 +91,7 @@ type model struct {
 	hSawEOF      bool
 	nReq, nResp  int
 	lastC, lastH int
+	prevC, prevH int // the op before lastC / lastH (completed even while lastC / lastH blocks)
 	postRetSends int
 	// facts for classification
 	unreadAtRet       int
@@ -100,10 +101,13 @@ type model struct {
 	unconsumedAtRet   int
 	closeConsumed     bool
 	termRecvsInScript int
+	closeOnFull       bool // CloseSend issued while the request buffer was full (handler still to Receive)
+	closeOnFullIdx    int
+	closeOnFullHeld   bool // ... and the handler's draining Receive is held back by a rendezvous on the op before CloseSend
 }
 
 func newModel(buf int) *model {
-	return &model{buf: buf, cBlocked: -1, hBlocked: -1, lastC: -1, lastH: -1}
+	return &model{buf: buf, cBlocked: -1, hBlocked: -1, lastC: -1, lastH: -1, prevC: -1, prevH: -1, closeOnFullIdx: -1}
 }
 
 func (m *model) clone() *model {
@@ -133,10 +137,13 @@ func (m *model) step(idx int, op Op) (e expect, consumed int, ok bool) {
 			return e, -1, false
 		}
 		if op.Wait {
-			if m.hBlocked >= 0 {
-				return e, -1, false
-			}
+			// While the other side's latest op is blocked (in the model) the rendezvous is
+			// with the op before it, which has completed: waiting for the blocked op itself
+			// could deadlock.
 			e.after = m.lastH
+			if m.hBlocked >= 0 {
+				e.after = m.prevH
+			}
 		}
 		e.postRet = m.hReturned
 		switch op.Kind {
@@ -189,6 +196,11 @@ func (m *model) step(idx int, op Op) (e expect, consumed int, ok bool) {
 					return e, -1, false
 				}
 				m.cBlocked, m.cBlockedCls = idx, true
+				// In the mock, CloseSend hands its EOF marker over the request channel and so
+				// blocks until the handler has drained one request (unbuffered: until the
+				// handler is in Receive). The model keeps the client blocked until the marker
+				// itself is consumed, which is the conservative reading.
+				m.closeOnFull, m.closeOnFullIdx = true, idx
 			}
 		case "recv":
 			switch {
@@ -209,16 +221,19 @@ func (m *model) step(idx int, op Op) (e expect, consumed int, ok bool) {
 		default:
 			return e, -1, false
 		}
-		m.lastC = idx
+		m.prevC, m.lastC = m.lastC, idx
 	case "h":
 		if m.hBlocked >= 0 || m.hReturned {
 			return e, -1, false
 		}
 		if op.Wait {
-			if m.cBlocked >= 0 {
-				return e, -1, false
-			}
 			e.after = m.lastC
+			if m.cBlocked >= 0 {
+				e.after = m.prevC
+				if m.cBlockedCls && m.cBlocked == m.closeOnFullIdx && op.Kind == "recv" && len(m.reqQ) == m.buf+1 {
+					m.closeOnFullHeld = true
+				}
+			}
 		}
 		switch op.Kind {
 		case "send":
@@ -277,7 +292,7 @@ func (m *model) step(idx int, op Op) (e expect, consumed int, ok bool) {
 		default:
 			return e, -1, false
 		}
-		m.lastH = idx
+		m.prevH, m.lastH = m.lastH, idx
 	default:
 		return e, -1, false
 	}
@@ -376,6 +391,43 @@ func genTiming(t *rapid.T, op *Op) {
 	}
 }
 
+// genCloseOnFull produces the shape "CloseSend while the request buffer is exactly full and
+// the handler is still going to Receive": top the buffer up with small requests, call
+// CloseSend, and (usually) hold the handler's first draining Receive back with a rendezvous
+// on the last Send (plus a short sleep) so that the buffer really is full when CloseSend runs.
+func genCloseOnFull(t *rapid.T, m *model, add func(Op) bool) {
+	for guard := 0; len(m.reqQ) < m.buf && m.cBlocked < 0 && guard < 16; guard++ {
+		sz := rapid.IntRange(0, 48).Draw(t, "burst_size")
+		if qBytes(m.reqQ)+sz > byteBudget {
+			return
+		}
+		op := Op{Side: "c", Kind: "send", Size: sz}
+		if guard == 0 {
+			genTiming(t, &op)
+		}
+		if !add(op) {
+			return
+		}
+	}
+	if m.cBlocked >= 0 || len(m.reqQ) != m.buf {
+		return
+	}
+	cl := Op{Side: "c", Kind: "close"}
+	if rapid.IntRange(0, 3).Draw(t, "close_sleep") == 0 {
+		cl.SleepUs = rapid.IntRange(20, 300).Draw(t, "sleep_us")
+	}
+	if !add(cl) {
+		return
+	}
+	if rapid.IntRange(0, 3).Draw(t, "hold") > 0 {
+		rc := Op{Side: "h", Kind: "recv", Wait: true}
+		if rapid.IntRange(0, 2).Draw(t, "hold_sleep") > 0 {
+			rc.SleepUs = rapid.IntRange(100, 1200).Draw(t, "sleep_us")
+		}
+		add(rc)
+	}
+}
+
 func genScript(t *rapid.T) Script {
 	sc := Script{
 		Buf:      rapid.SampledFrom([]int{0, 1, 3, 10, 10, 10}).Draw(t, "buf"),
@@ -441,6 +493,11 @@ func genScript(t *rapid.T) Script {
 		}
 		if op.Kind == "send" {
 			op.Size = sizeGen.Draw(t, "payload")
+		}
+		if op.Side == "c" && op.Kind == "close" && !m.cClosed && !m.hReturned && m.hBlocked < 0 && m.cBlocked < 0 &&
+			rapid.IntRange(0, 2).Draw(t, "closeOnFull") > 0 {
+			genCloseOnFull(t, m, add)
+			continue
 		}
 		genTiming(t, &op)
 		add(op)
